@@ -230,14 +230,14 @@ theorem aggMaybe_spec (p : PExpr) : ∀ (ds : List (AggDescr × Nat)) (i : Nat) 
 theorem agg_sound {S : Sig} {Γ : Ctx} {ds : List AggDescr} {p p' : PExpr} {i : Nat} {o : Ty}
     (hp : Sound S Γ p) (hds : AggTableOk ds) (h : aggTypecheck ds p = .ok (i, p', o)) :
     Sound S Γ p' ∧ wf o = true ∧
-    ∃ d, ds[i]? = some d ∧ ∀ trigger, AggSound d trigger → coalescePlain p' = true →
+    ∃ d, ds[i]? = some d ∧ ∀ trigger, AggSound d trigger → coalesceOk p' = true →
       ∀ (ρs : List (List (List Value))), ρs ≠ [] → (∀ ρ ∈ ρs, EnvConforms Γ ρ) →
         ∀ v, aggRun trigger (ρs.map (fun ρ => eval S Γ ρ p')) [] = .val v → conforms o v = true := by
   -- the common tail: from the typing facts of the chosen descriptor to the statement about one group
   have tail : ∀ (d : AggDescr) (q : PExpr) (o0 : Ty), Sound S Γ q → wf o0 = true → aggLift q.ty o0 = .ok o →
       (∀ trigger, AggSound d trigger → ∀ xs v, (∀ x ∈ xs, conforms q.ty x = true ∧ x ≠ .null) → trigger xs = .val v →
         conforms o0 v = true) →
-      wf o = true ∧ ∀ trigger, AggSound d trigger → coalescePlain q = true →
+      wf o = true ∧ ∀ trigger, AggSound d trigger → coalesceOk q = true →
         ∀ (ρs : List (List (List Value))), ρs ≠ [] → (∀ ρ ∈ ρs, EnvConforms Γ ρ) →
           ∀ v, aggRun trigger (ρs.map (fun ρ => eval S Γ ρ q)) [] = .val v → conforms o v = true := by
     intro d q o0 hq wo0 hl hbody
